@@ -27,6 +27,9 @@ type DOp struct {
 	// ID, anything else is sent as it is); Bad: the input is one the step's schema rejects
 	Sid string `json:"sid,omitempty"`
 	Bad bool   `json:"bad,omitempty"`
+	// exec only: Pre signals (for the run itself) are already queued in a buffered signalsToStep
+	// channel when Execute is called
+	Pre int `json:"pre,omitempty"`
 }
 
 // SOp is one operation of the scripted server.
@@ -63,6 +66,18 @@ type Session struct {
 	Healthy   bool   `json:"healthy"`   // peer and transport are correct: C06 applies
 	Dir       []DOp  `json:"dir"`
 	Srv       []SOp  `json:"srv"`
+	// Backpressure > 0: the scripted server reacts like the real one to a signal that arrives before
+	// the work-start of its run: its read loop queues an "unknown step" report (a non-fatal error
+	// message) on a channel of this capacity and a second goroutine writes the reports to the
+	// client; when the channel is full the read loop stops reading until the client has consumed
+	// reports (atp/server.go: workDone has capacity 3).
+	Backpressure int `json:"backpressure,omitempty"`
+	// DelayFn/DelayMs: every job of this session delays the first statement of that function of
+	// client.go (resolved to a yield point by the harness)
+	DelayFn string `json:"delayfn,omitempty"`
+	DelayMs int    `json:"delayms,omitempty"`
+	// Marker is copied into the detail of every finding of this session (known-finding matching)
+	Marker string `json:"marker,omitempty"`
 }
 
 // Delay delays every hit (up to Max) of an instrumentation point.
